@@ -293,8 +293,7 @@ theorem no_redirect_outside (ms : List MObj) (c r : Nat) (h : ∀ m ∈ ms, m.re
 
 /-- clause "merged ranges … pairwise disjoint", provable part: `MergeCell` with a rectangle
 that meets no existing range keeps the list pairwise disjoint. (`MergeCell` itself never
-normalises; overlapping input is only merged later by `mergeOverlapCells`, in one pass —
-see `finding_merge_one_pass`.) -/
+normalises: overlapping input is merged later by `mergeOverlapCells`, see `merges_disjoint`.) -/
 theorem merges_disjoint_partial (s : Sheet) (hd : Disjoint s.merges) (c1 r1 c2 r2 : Nat)
     (hnew : ∀ m ∈ s.merges, ∀ c r, m.rect.contains c r = true → (sortRect c1 r1 c2 r2).contains c r = false) :
     Disjoint (step s (.merge c1 r1 c2 r2)).1.merges := by
@@ -411,67 +410,68 @@ theorem reported_after_safe (ops : List Op) (s : Sheet) (h : PairwiseDisjoint s.
   · rfl
   · exact mergeOverlap_id _ hp
 
-/-- clause "pairwise disjoint", specification side: the normal form `normSpec` (absorb what the new
-rectangle meets into the common bounding box; `none` as soon as a box reaches a range the rectangle itself
-did not meet) is pairwise disjoint whenever it exists. The driver checks on every `GetMergeCells` of every
-transcript that the one-pass code returns exactly this normal form whenever `normSpec ≠ none`; in Lean the
-equality is proved for the overlap-free case (`normalise_id_on_disjoint`) and decided on examples below. -/
-theorem normal_form_disjoint (rs l : List Rect) (h : normSpec rs = some l) :
-    l.Pairwise (fun a b => NoCommon a b) := normSpec_pairwise rs l h
-
-/-- both known failures of the one-pass normalisation are hazards in the sense of `normSpec`: the bounding
-box of an overlapping pair reaches an earlier range that the new rectangle did not meet -/
-theorem findings_are_hazards :
-    normSpec [⟨3, 1, 3, 3⟩, ⟨1, 3, 1, 4⟩, ⟨1, 4, 4, 4⟩] = none ∧
-    normSpec [⟨1, 1, 3, 3⟩, ⟨4, 2, 5, 4⟩, ⟨2, 4, 4, 5⟩] = none := by
-  constructor <;> decide +kernel
-
-/-- hazard-free overlapping inputs (corner overlap, cross, containment, a chain that grows twice, a box that
-absorbs two earlier ranges): the one-pass code returns the normal form -/
-theorem one_pass_exact_examples :
-    ∀ rs ∈ ([[⟨2, 2, 3, 3⟩, ⟨3, 3, 5, 5⟩], [⟨2, 2, 4, 2⟩, ⟨3, 1, 3, 3⟩], [⟨1, 1, 5, 5⟩, ⟨2, 2, 3, 3⟩],
-        [⟨2, 2, 3, 3⟩, ⟨3, 3, 5, 5⟩, ⟨5, 5, 6, 6⟩], [⟨1, 1, 2, 2⟩, ⟨4, 1, 5, 2⟩, ⟨2, 2, 4, 3⟩, ⟨7, 7, 8, 8⟩]] : List (List Rect)),
-      (normSpec rs).isSome = true ∧
-      some ((mergeOverlapCells (rs.map fun q => ⟨q, q⟩)).map (·.rect)) = normSpec rs := by
-  decide +kernel
-
 def rA (c1 r1 c2 r2 : Nat) : MObj := ⟨⟨c1, r1, c2, r2⟩, ⟨c1, r1, c2, r2⟩⟩
 
-/-- FINDING (negation of the full statement "reported ranges are always pairwise disjoint"):
-merging C1:C3, A3:A4, A4:D4 and normalising reports C1:C3 and A3:D4, which share C3. -/
-theorem finding_merge_one_pass :
-    (run {} [.merge 3 1 3 3, .merge 1 3 1 4, .merge 1 4 4 4, .getMerges]).merges = [rA 3 1 3 3, rA 1 3 4 4] ∧
-    (rA 3 1 3 3).rect.contains 3 3 = true ∧ (rA 1 3 4 4).rect.contains 3 3 = true ∧
-    ¬ Disjoint (run {} [.merge 3 1 3 3, .merge 1 3 1 4, .merge 1 4 4 4, .getMerges]).merges := by
-  have h : (run {} [.merge 3 1 3 3, .merge 1 3 1 4, .merge 1 4 4 4, .getMerges]).merges = [rA 3 1 3 3, rA 1 3 4 4] := by
-    decide +kernel
-  refine ⟨h, by decide +kernel, by decide +kernel, ?_⟩
-  rw [h]
-  intro hd
-  have := hd (rA 3 1 3 3) (by simp) (rA 1 3 4 4) (by simp) 3 3 (by decide +kernel) (by decide +kernel)
-  simp [rA] at this
+/-- clause "the merged ranges reported are always pairwise disjoint" — FULL STRENGTH (since the repair of
+the normalisation): after ANY history of cell writes, styles, merges (overlapping, nested, crossing, in any
+order), unmerges and earlier normalisations, what `GetMergeCells` reports has no two ranges sharing a cell. -/
+theorem merges_disjoint (ops : List Op) (s : Sheet) :
+    (step (run s ops) .getMerges).1.merges.Pairwise (fun a b => NoCommon a.rect b.rect) := by
+  simp only [step, getMerges]
+  split
+  · rename_i he
+    have : (run s ops).merges = [] := List.isEmpty_iff.mp he
+    rw [this]; simp
+  · exact (mergeOverlap_disj _).imp (fun {a b} h => noCommon_of_not_meets _ _ h)
 
-/-- FINDING: the one-pass normalisation can also lose ranges: after merging A1:C3, D2:E4, B4:D5
-only A1:C3 is reported — D2:E4 and B4:D5 (and their union) are gone. -/
-theorem finding_merge_range_lost :
-    (run {} [.merge 1 1 3 3, .merge 4 2 5 4, .merge 2 4 4 5, .getMerges]).merges = [rA 1 1 3 3] := by
-  decide +kernel
+/-- the same for the list `UnmergeCell` leaves behind -/
+theorem unmerge_reports_disjoint (s : Sheet) (c1 r1 c2 r2 : Nat) :
+    (step s (.unmerge c1 r1 c2 r2)).1.merges.Pairwise (fun a b => meetsB a.rect b.rect = false) ∨
+    (step s (.unmerge c1 r1 c2 r2)).1.merges = s.merges := by
+  simp only [step, unmergeCell]
+  split
+  · exact Or.inr rfl
+  · split
+    · exact Or.inr rfl
+    · exact Or.inl ((mergeOverlap_disj _).filter _)
 
-/-- FINDING: `isOverlap` (eight corner tests) does not see two rectangles that cross without
-containing a corner of each other, so `UnmergeCell(B1:B3)` keeps the merged range A2:C2. -/
-theorem finding_isOverlap_misses_cross :
-    isOverlap ⟨2, 1, 2, 3⟩ ⟨1, 2, 3, 2⟩ = false ∧
-    (⟨2, 1, 2, 3⟩ : Rect).contains 2 2 = true ∧ (⟨1, 2, 3, 2⟩ : Rect).contains 2 2 = true ∧
-    (run {} [.merge 1 2 3 2, .unmerge 2 1 2 3]).merges = [rA 1 2 3 2] := by
-  refine ⟨by decide +kernel, by decide +kernel, by decide +kernel, by decide +kernel⟩
+/-- the normalisation terminates: its `for` loop is run with `live.length` units of fuel and never needs
+more — every round that does not exit removes at least one live range (`filter_not_length`), so any larger
+amount of fuel gives the same result -/
+theorem normalise_terminates (n : Nat) (live : List MObj) (q : MObj) (h : live.length ≤ n) :
+    absorb n live q = absorb live.length live q := absorb_fuel n live.length live q h (Nat.le_refl _)
 
-/-- FINDING: `SetCellValue(time.Time)` on B2 inside the merged range A1:B2 stores the value at
-the anchor A1 but `setDefaultTimeStyle` (GetCellStyle + SetCellStyle on the spelling, no
-redirect) puts the date style on B2: the anchor keeps style 0. -/
-theorem finding_time_style_not_redirected :
-    let s := run { nStyles := 2 } [.merge 1 1 2 2, .set .time 2 2 (.num "3435"), .getStyle 2 2, .style 2 2 2 2 1]
-    ((abs s).g 1 1).v = "3435" ∧ ((abs s).g 1 1).s = 0 ∧ ((abs s).g 2 2).s = 1 ∧ ((abs s).g 2 2).v = "" := by
-  decide +kernel
+/-- the normalisation loses nothing: every cell of a merged range is in some reported range -/
+theorem normalise_covers (ms : List MObj) (m : MObj) (hm : m ∈ ms) (x y : Nat)
+    (h : m.rect.contains x y = true) : ∃ m' ∈ mergeOverlapCells ms, m'.rect.contains x y = true :=
+  mergeOverlap_covers ms m hm x y h
+
+/-- `UnmergeCell` removes every merged range that shares a cell with the given range (crossing ranges
+included: `isOverlap` is the interval intersection test) -/
+theorem unmerge_removes_all_overlapping (s : Sheet) (c1 r1 c2 r2 : Nat)
+    (h0 : ¬ (c1 = 0 ∨ r1 = 0 ∨ c2 = 0 ∨ r2 = 0)) (hne : s.merges.isEmpty = false) :
+    ∀ m ∈ (step s (.unmerge c1 r1 c2 r2)).1.merges, NoCommon (sortRect c1 r1 c2 r2) m.ref := by
+  intro m hm
+  simp only [step, unmergeCell, h0, if_false, hne] at hm
+  have := (List.mem_filter.mp hm).2
+  rw [isOverlap_eq_meets] at this
+  exact noCommon_of_not_meets _ _ (by simpa using this)
+
+/-- `isOverlap` is the interval test (facts) and sees crossing rectangles; the normalisation compares
+rectangles and allocates no cell matrix -/
+theorem overlap_is_intersection (a b : Rect) :
+    isOverlap a b = meetsB a b ∧ isOverlap ⟨2, 1, 2, 3⟩ ⟨1, 2, 3, 2⟩ = true ∧
+    Facts.C03.normaliseAllocatesMatrix = false ∧ Facts.C03.flatCallsIsOverlap = true ∧
+    Facts.C03.flatCallsMergeCell = true :=
+  ⟨isOverlap_eq_meets a b, by decide +kernel, by decide, by decide, by decide⟩
+
+/-- regression witnesses of the former one-pass defects: C1:C3, A3:A4, A4:D4 and A1:C3, D2:E4, B4:D5 now
+normalise to one range each; `UnmergeCell(B1:B3)` removes the crossing range A2:C2 -/
+theorem former_witnesses :
+    (run {} [.merge 3 1 3 3, .merge 1 3 1 4, .merge 1 4 4 4, .getMerges]).merges = [rA 1 1 4 4] ∧
+    (run {} [.merge 1 1 3 3, .merge 4 2 5 4, .merge 2 4 4 5, .getMerges]).merges = [rA 1 1 5 5] ∧
+    (run {} [.merge 1 2 3 2, .unmerge 2 1 2 3]).merges = [] := by
+  refine ⟨by decide +kernel, by decide +kernel, by decide +kernel⟩
 
 /-! ## shared strings -/
 
